@@ -859,29 +859,34 @@ class name_BradleyTerry(BallotGenerator):
         current_ranking = list(seed_ballot.ranking)
         num_candidates = len(current_ranking)
 
-        # presample swap indices
-        swap_indices = [
-            (j1, j1 + 1)
-            for j1 in random.choices(range(num_candidates - 1), k=num_ballots)
-        ]
+        # presample swap indices (with fewer than two candidates there is nothing to swap)
+        swap_indices = (
+            [
+                (j1, j1 + 1)
+                for j1 in random.choices(range(num_candidates - 1), k=num_ballots)
+            ]
+            if num_candidates > 1
+            else []
+        )
 
         # generate MCMC sample
         for i in range(num_ballots):
-            # choose adjacent pair to propose a swap
-            j1, j2 = swap_indices[i]
-            acceptance_prob = min(
-                1,
-                pref_interval[next(iter(current_ranking[j2]))]
-                / pref_interval[next(iter(current_ranking[j1]))],
-            )
-
-            # if you accept, make the swap
-            if random.random() < acceptance_prob:
-                current_ranking[j1], current_ranking[j2] = (
-                    current_ranking[j2],
-                    current_ranking[j1],
+            if swap_indices:
+                # choose adjacent pair to propose a swap
+                j1, j2 = swap_indices[i]
+                acceptance_prob = min(
+                    1,
+                    pref_interval[next(iter(current_ranking[j2]))]
+                    / pref_interval[next(iter(current_ranking[j1]))],
                 )
-                accept += 1
+
+                # if you accept, make the swap
+                if random.random() < acceptance_prob:
+                    current_ranking[j1], current_ranking[j2] = (
+                        current_ranking[j2],
+                        current_ranking[j1],
+                    )
+                    accept += 1
 
             if len(zero_cands) > 0:
                 ballots[i] = Ballot(ranking=current_ranking + [zero_cands])
@@ -1811,11 +1816,15 @@ class slate_BradleyTerry(BallotGenerator):
 
         cohesion = self.cohesion_parameters[bloc][bloc]
 
-        # presample swap indices
-        swap_indices = [
-            (j1, j1 + 1)
-            for j1 in np.random.choice(len(seed_ballot_type) - 1, size=num_ballots)
-        ]
+        # presample swap indices (a single-entry ballot type has nothing to swap)
+        swap_indices = (
+            [
+                (j1, j1 + 1)
+                for j1 in np.random.choice(len(seed_ballot_type) - 1, size=num_ballots)
+            ]
+            if len(seed_ballot_type) > 1
+            else [(0, 0)] * num_ballots
+        )
 
         odds = (1 - cohesion) / cohesion
         # generate MCMC sample
